@@ -88,6 +88,9 @@ type v3sys struct {
 	appVals    map[string]*configv3.PathValue
 	connUp     bool
 	cfgWritten bool
+	valsAhead  bool
+	valsTask   string
+	atEnd      bool
 	healing    bool
 	noFault    bool
 	nextOp     int
@@ -383,10 +386,23 @@ func (s *v3sys) onWrite(w WriteRec) {
 				s.res.Harness = "decode v3 configuration: " + err.Error()
 				continue
 			}
+			prev := s.cfg
 			s.cfg = c
 			s.cfgWritten = true
+			if w.Task == s.valsTask || (strings.HasPrefix(w.Task, "rec/transaction") && prev != nil &&
+				(prev.Applied.Revision != c.Applied.Revision || prev.Committed.Revision != c.Committed.Revision)) {
+				// the record that goes with the value-map write: written by the same reconcile, or - after a failed or
+				// conflicting first attempt - by a later one that moves a revision
+				s.valsAhead = false
+			}
 		}
 	case strings.HasPrefix(w.Prim, "configurations-"):
+		// A transition writes the value map first and the record (revisions) second. Until the transaction controller has
+		// written the record that goes with it, the value map is ahead of the record; a write of the record by anybody else
+		// in that gap (a mastership or synchronisation status, another transaction's commit from a copy read before) does
+		// not make the pair comparable (see check)
+		s.valsAhead = true
+		s.valsTask = w.Task
 		vals := map[string]*configv3.PathValue{}
 		for k, e := range p.Entries {
 			pv := &configv3.PathValue{}
@@ -514,6 +530,9 @@ func (s *v3sys) check() {
 		return
 	}
 	s.cfgWritten = false
+	if s.valsAhead && !s.atEnd {
+		return
+	}
 	// what a reader of the store sees as committed values: the values embedded in the record (status updates keep them
 	// there) overlaid with the entries of the committed value map (store.populate)
 	comView := map[string]*configv3.PathValue{}
@@ -532,6 +551,16 @@ func (s *v3sys) check() {
 					s.report("consistency", "committed-values", fmt.Sprintf("committed revision is %d but committed value of %s is %s, transaction %d holds %s", rev, path, v3pv(got), rev, v3pv(&v)))
 				}
 			}
+		}
+	}
+	// a completed rollback has restored the cursors: the Configuration is written before the transaction is marked, so
+	// once the rollback commit (apply) of i is COMPLETE the committed (applied) revision cannot name i any more
+	for i, ti := range s.txs {
+		if rc := ti.Status.Rollback.Commit; rc != nil && rc.State == configv3.TransactionPhaseStatus_COMPLETE && uint64(c.Committed.Revision) == i {
+			s.report("consistency", "rolled-back-change-is-still-the-committed-revision", fmt.Sprintf("the rollback commit of change %d is Complete but the committed revision is still %d; history %s", i, i, v3hist(s.hist)))
+		}
+		if ra := ti.Status.Rollback.Apply; ra != nil && ra.State == configv3.TransactionPhaseStatus_COMPLETE && uint64(c.Applied.Revision) == i {
+			s.report("consistency", "rolled-back-change-is-still-the-applied-revision", fmt.Sprintf("the rollback apply of change %d is Complete but the applied revision is still %d (the applied values and the device still hold its values); history %s", i, i, v3hist(s.hist)))
 		}
 	}
 	if rev := uint64(c.Applied.Revision); rev != 0 {
@@ -556,10 +585,23 @@ func (s *v3sys) check() {
 					l, has := s.dev.State[pp.K()]
 					if v.Deleted {
 						if has {
-							s.report("consistency", "device-values", fmt.Sprintf("applied revision is %d (connected, synchronized in the current term) but the device still holds %s which transaction %d deleted", rev, path, rev))
+							s.report("consistency", "device-values:deleted-value-still-on-device", fmt.Sprintf("applied revision is %d (connected, synchronized in the current term) but the device still holds %s which transaction %d deleted", rev, path, rev))
 						}
 					} else if !has || l.V != v3canon(&v) {
-						s.report("consistency", "device-values", fmt.Sprintf("applied revision is %d (connected, synchronized in the current term) but the device holds %v for %s; transaction %d holds %s", rev, l.V, path, rev, v3pv(&v)))
+						shape := "device-values:missing-on-device"
+						if has {
+							shape = "device-values:other-value"
+							// does the device hold what an earlier transaction wrote to that path, after a re-synchronisation?
+							for j, tj := range s.txs {
+								if ov, ok := tj.Values[path]; ok && j < rev && !ov.Deleted && v3canon(&ov) == l.V {
+									shape = "device-values:value-of-an-earlier-change"
+									if c.Applied.Term > 1 {
+										shape += "-after-resync"
+									}
+								}
+							}
+						}
+						s.report("consistency", shape, fmt.Sprintf("applied revision is %d (connected, synchronized in the current term) but the device holds %v for %s; transaction %d holds %s", rev, l.V, path, rev, v3pv(&v)))
 					}
 				}
 			}
@@ -857,6 +899,7 @@ func v3Bubble(plan *Plan, res *Result) {
 	}
 	res.CapHit = capHit
 	s.cfgWritten = true
+	s.atEnd = true
 	s.check()
 	// ---- Termination
 	idx := make([]uint64, 0, len(s.txs))
